@@ -100,6 +100,7 @@ def run(repo: Repo, rep: Report, tier: str) -> None:
     if n_cfg < 24:
         rep.error(f"only {n_cfg} discriminator configurations analysed")
     _python_level(repo, rep)
+    _registry_granularity(repo, rep)
 
 
 def _check_helper(rep: Report, cfg, name: str, fn: ast.FunctionDef, r: Rendered) -> None:
@@ -219,6 +220,63 @@ def _targets(nodes):
             if isinstance(st, ast.Assign):
                 out.extend(st.targets)
     return out
+
+
+def _registry_granularity(repo: Repo, rep: Report) -> None:
+    """R12.5: the fast path `registry[tag].<variant method>(value)` relies on `tag registered => that variant's own
+    method is compiled`. Registration and compilation happen together in the slow path, per (holder, registry
+    attribute); the variant method name is specialised by the format. So the registry attribute must be at least as
+    specialised: a registry shared by two formats makes the second format find the tag, resolve the missing method
+    through inheritance to the base class's own dispatcher and recurse (plain, non-mixin hierarchies)."""
+    from ..core.scen import make_eval
+    from ..core.values import Const, Func
+    from ..core.pe import Path
+
+    dummy = ast.parse("f(x)").body[0].value
+    fmts = ("dict", "msgpack")
+    meth = {}
+    for fmt in fmts:
+        ev = make_eval(repo, inline_depth=4)
+        fm = repo.func(M_BUILDER, "CodeBuilder.get_unpack_method_name")
+        res = ev.call_func(Func(fm), [], {"format_name": Const(fmt)}, Path(), dummy, force=True)
+        meth[fmt] = sorted({show(v) for v, q in res if q.ctl != "raise"})
+    if meth["dict"] == meth["msgpack"]:
+        rep.ok("R12.5", "variant method names are not format-specific", None)
+        return
+    for cls in ("DiscriminatedUnionUnpackerBuilder", "SubtypeUnpackerBuilder"):
+        ci = repo.cls(M_UNPACK, cls)
+        fi = next((repo.funcs[f"{c.key}._get_variants_attr"] for c in repo.mro(ci) if f"{c.key}._get_variants_attr" in repo.funcs), None)
+        if fi is None:
+            rep.undecide("R12.5", f"{cls}._get_variants_attr not found")
+            continue
+        attr = {}
+        for fmt in fmts:
+            ev = make_eval(repo, inline_depth=4)
+            p = Path()
+            spec = symbolic_spec(ev, p)
+            b = ev.builder_obj(p)
+            p.heap[b.oid]["format_name"] = Const(fmt)
+            obj = ev.new_obj(p, ci.key, {"_variants_attr": Const(None), "discriminator": corpus_mod._discr_obj(ev, p)})
+            res = ev.call_func(Func(fi, self_v=obj), [spec], {}, p, dummy, force=True)
+            vals = set()
+            for v, q in res:
+                if q.ctl == "raise":
+                    continue
+                vals.add((show(v), "random_hex" in show(v) or "IDENT" in getattr(v, "tags", ())))
+            attr[fmt] = vals
+        if not attr["dict"] or not attr["msgpack"]:
+            rep.undecide("R12.5", f"{cls}: no value for the registry attribute")
+            continue
+        fresh = all(r for _, r in attr["dict"] | attr["msgpack"])
+        shared = {t for t, r in attr["dict"] if not r} & {t for t, r in attr["msgpack"] if not r}
+        if fresh:
+            rep.ok("R12.5", f"{cls}: registry attribute is fresh per generated dispatcher ({sorted(t for t, _ in attr['dict'])})", None)
+        elif shared:
+            rep.violation("R12.5", fi.key, f"{cls}: one registry attribute {sorted(shared)} for every format while variant methods are per format",
+                          "after one format registered a tag, another format's dispatcher finds the tag, the variant lacks that format's method, attribute lookup falls through to the base class's own dispatcher "
+                          "and recurses: from_dict then from_json (or the reverse) on a plain dataclass hierarchy fails depending on the call order", loc=fi.loc)
+        else:
+            rep.ok("R12.5", f"{cls}: registry attribute is specialised by format ({sorted(t for t, _ in attr['dict'])} / {sorted(t for t, _ in attr['msgpack'])})", None)
 
 
 def _python_level(repo: Repo, rep: Report) -> None:
